@@ -290,7 +290,7 @@ static const char *OPRN[7] = {"equ", "cap", "cap_algebra", "cap_bounded", "cup",
 static void inference(bool thorough)
 {
     uint64_t n = 0, nt = 0, item = 0;
-    int G = thorough ? 81 : 41;
+    int G = thorough ? 161 : 41;
     // the documented buffer size, also when the argument is a compound expression
     if (R.shard.idx == 0)
     {
